@@ -138,7 +138,9 @@ def read_seq(draw, defs, other_defs=()):
 
 @st.composite
 def qualities(draw, n, base=33):
-    mode = draw(st.integers(0, 3))
+    mode = draw(st.integers(0, 4))
+    if mode == 4:
+        return chr(base) * n  # phred 0: expected errors exactly 1.0 per base
     if mode == 0:
         return chr(base + 40) * n
     if mode == 1:
